@@ -212,7 +212,7 @@ def r20c(chk, rid='R20.c'):
     for fn_name, var in (('getHTTPInfo', 'encoding'), ('getMetaInfo', 'encoding')):
         fn = m.get(fn_name)
         src = ast.unparse(fn)
-        chk.ob(rid, ENC, fn_name, 'lower-cases the charset it returns', f'{var} = {var}.lower()' in src, 'an upper-case charset from the document reaches encinfo.encoding')
+        chk.ob(rid, ENC, fn_name, 'lower-cases the charset it returns', f'{var} = {var}.lower()' in src, 'an upper-case charset from the document reaches encinfo.encoding', shape=True)
         g = cfgmod.CFG(fn)
         low = [n for n in g.nodes if n.kind == 'stmt' and text(n.stmt) == f'{var} = {var}.lower()']
         rets = [n for n in g.nodes if n.kind == 'return']
@@ -220,7 +220,7 @@ def r20c(chk, rid='R20.c'):
         chk.ob(rid, ENC, fn_name, f'returns that variable', ok, '')
     fd = m.get('detectXMLEncoding')
     src = ast.unparse(fd)
-    chk.ob(rid, ENC, 'detectXMLEncoding', 'lower-cases the declared encoding', "enc = match.group('encstr').lower()" in src, '')
+    chk.ob(rid, ENC, 'detectXMLEncoding', 'lower-cases the declared encoding', "enc = match.group('encstr').lower()" in src, '', shape=True)
     lits = [c.value for d in ast.walk(fd) if isinstance(d, ast.Dict) for c in d.values if isinstance(c, ast.Constant) and isinstance(c.value, str)]
     lits += [c.value for r in ast.walk(fd) if isinstance(r, ast.Return) and isinstance(r.value, ast.Constant) and isinstance(r.value.value, str) for c in [r.value]]
     chk.ob(rid, ENC, 'detectXMLEncoding', f'BOM table and default are lower-case: {sorted(set(lits))}', all(x == x.lower() for x in lits), 'an upper-case encoding name is returned')
